@@ -11,6 +11,7 @@
 #include <thread>
 
 #include <dispenso/detail/completion_event_impl.h>
+#include <dispenso/detail/verif_hooks.h>
 #include <dispenso/platform.h>
 #include <dispenso/tsan_annotations.h>
 
@@ -136,6 +137,7 @@ class RWLockImpl {
     // HAPPENS_AFTER in waitForReaderDrain(). (No-op unless built under TSAN; on
     // Linux the union is same-size and this is simply belt-and-suspenders.)
     DISPENSO_TSAN_ANNOTATE_HAPPENS_BEFORE(&event_);
+    DISPENSO_VERIF_POINT("rw.readerRelease.fetch_sub", this);
     int prev = lockWord().fetch_sub(1, std::memory_order_acq_rel);
     if (prev == (kWriteBit | 1)) {
       event_.tryNotify();
@@ -144,12 +146,14 @@ class RWLockImpl {
 };
 
 inline void RWLockImpl::setWriteBit() {
+  DISPENSO_VERIF_POINT("rw.setWriteBit.fetch_or", this);
   int val = lockWord().fetch_or(kWriteBit, std::memory_order_acq_rel);
   for (int spin = 0; val & kWriteBit; ++spin) {
     if (spin >= kSpinBeforeYield) {
       std::this_thread::yield();
       spin = 0;
     }
+    DISPENSO_VERIF_POINT("rw.setWriteBit.fetch_or", this);
     val = lockWord().fetch_or(kWriteBit, std::memory_order_acq_rel);
   }
 }
@@ -169,11 +173,13 @@ inline void RWLockImpl::lock() {
 }
 
 inline bool RWLockImpl::tryWriteBit() {
+  DISPENSO_VERIF_POINT("rw.tryWriteBit.fetch_or", this);
   int val = lockWord().fetch_or(kWriteBit, std::memory_order_acq_rel);
   return !(val & kWriteBit);
 }
 
 inline bool RWLockImpl::try_lock() {
+  DISPENSO_VERIF_POINT("rw.try_lock.fetch_or", this);
   int val = lockWord().fetch_or(kWriteBit, std::memory_order_acq_rel);
   if (val & kWriteBit) {
     // Another writer already owns the bit. We did not set it, so we must not
@@ -190,6 +196,7 @@ inline bool RWLockImpl::try_lock() {
   // writer bit keeps new ones out.
   for (int spin = 0; spin < kTryLockDrainSpins; ++spin) {
     cpuRelax();
+    DISPENSO_VERIF_POINT("rw.try_lock.load", this);
     if (lockWord().load(std::memory_order_acquire) == kWriteBit) {
       return true;
     }
@@ -197,15 +204,18 @@ inline bool RWLockImpl::try_lock() {
   // Readers did not drain in time. Release our writer bit (preserving the
   // concurrent reader counts in the low bits) and report failure. try_lock is
   // permitted to fail spuriously, so this is a valid outcome.
+  DISPENSO_VERIF_POINT("rw.try_lock.fetch_and", this);
   lockWord().fetch_and(kReaderBits, std::memory_order_acq_rel);
   return false;
 }
 
 inline void RWLockImpl::unlock() {
+  DISPENSO_VERIF_POINT("rw.unlock.fetch_and", this);
   lockWord().fetch_and(kReaderBits, std::memory_order_acq_rel);
 }
 
 inline void RWLockImpl::lock_shared() {
+  DISPENSO_VERIF_POINT("rw.lock_shared.fetch_add", this);
   int val = lockWord().fetch_add(1, std::memory_order_acq_rel);
   while (val & kWriteBit) {
     readerRelease();
@@ -214,13 +224,16 @@ inline void RWLockImpl::lock_shared() {
         std::this_thread::yield();
         spin = 0;
       }
+      DISPENSO_VERIF_POINT("rw.lock_shared.load", this);
       val = lockWord().load(std::memory_order_acquire);
     }
+    DISPENSO_VERIF_POINT("rw.lock_shared.fetch_add", this);
     val = lockWord().fetch_add(1, std::memory_order_acq_rel);
   }
 }
 
 inline bool RWLockImpl::try_lock_shared() {
+  DISPENSO_VERIF_POINT("rw.try_lock_shared.fetch_add", this);
   int val = lockWord().fetch_add(1, std::memory_order_acq_rel);
   if (val & kWriteBit) {
     readerRelease();
@@ -236,12 +249,14 @@ inline void RWLockImpl::unlock_shared() {
 inline void RWLockImpl::lock_upgrade() {
   setWriteBit();
   // We've claimed single write ownership now.  We need to drain off readers, including ourself
+  DISPENSO_VERIF_POINT("rw.lock_upgrade.fetch_sub", this);
   lockWord().fetch_sub(1, std::memory_order_acq_rel);
   waitForReaderDrain();
 }
 
 inline void RWLockImpl::lock_downgrade() {
   // Get reader ownership first
+  DISPENSO_VERIF_POINT("rw.lock_downgrade.fetch_add", this);
   lockWord().fetch_add(1, std::memory_order_acq_rel);
   unlock();
 }
